@@ -111,6 +111,7 @@ fn liveness() -> BoxedStrategy<ApiCase> {
             let t = move || {
                 prop_oneof![
                     4 => (0.02f64..1.0).prop_map(move |k| (k / fs as f64) as f32),
+                    2 => proptest::sample::select(vec![0.5f32, 1.0, 2.0, 4.0]).prop_map(move |k| k / fs),
                     2 => (1.0f64..4.0).prop_map(move |k| (k / fs as f64) as f32),
                     1 => Just(0.001f32),
                     2 => log_uniform(0.001, 0.05),
